@@ -220,7 +220,7 @@ def check_C14(ctx):
                 "Module::parse recording walrus, emit under both values of the switch -- model-checked (WalrusOnce, InputPreserved, AddIsLocal) and all its behaviours up to the bound replayed on real Modules. "
                 "A case is one input under all vectors, or one history.")
     q = ctx.quick()
-    n = 150 if q else 5000
+    n = 150 if q else 1200
     inputs = "fixtures,dwarfed:%d,gen:%d,gen:%d:stable" % (n // 5, n, n // 3)
     trace = os.path.join(ctx.work, "config.ndjson")
     wv(["trace-config", "inputs=" + inputs, "seed=%d" % ctx.seed, "out=" + trace])
@@ -251,6 +251,8 @@ def check_C13(ctx):
     for c in named[:2] + named[-1:]:
         ctx.sample({"id": c["id"], "in_names": c["in_names"][:6], "out_names": c["out_names"][:6], "sigma_func": c["sigma"]["func"]})
     ctx.assumptions += ["the design-level run is the renumbering model Walrus.tla (names ride on sigma); the name relation itself is only checked on the implementation"]
+    # names of locals follow their locals through slot assignment (API-built functions, parameters in any allocation order): Locals.tla
+    locals_oracle(ctx, "C13")
 
 
 def check_C19(ctx):
@@ -482,6 +484,8 @@ def check_C15(ctx):
                          slim=lambda c: {"id": c["id"], "hist": c["hist"]})
     for c in cases[:1] + cases[len(cases) // 2: len(cases) // 2 + 1] + cases[-1:]:
         ctx.sample({"id": c["id"], "hist": [(e["op"], e["seq"], e["pos"], e["kind"], e["d"]) for e in c["hist"]], "emitted": [o["o"] for o in c["outops"]]})
+    # local slots of builder-made functions: Locals.tla
+    locals_oracle(ctx, "C15")
 
 
 def check_C16(ctx):
@@ -536,7 +540,7 @@ def check_C05(ctx):
     q = ctx.quick()
     cfg = write_cfg("MC_ParseGate_gen", open(os.path.join(SPEC, "MC_ParseGate.cfg")).read().replace("MaxPayloads = 3", "MaxPayloads = %d" % 3))
     model_check(ctx, "ParseGate", cfg=cfg, workers=8, label="design-parse-gate")
-    n = 3000 if q else 300000
+    n = 3000 if q else 40000
     trace = os.path.join(ctx.work, "parse.ndjson")
     if os.path.exists(trace):
         os.remove(trace)
@@ -701,6 +705,25 @@ def types_oracle(ctx, prop):
     os.environ["PROPERTY"] = prop
     cases = judge_shards(ctx, "Trace_Types", ["%s.%d" % (trace, k) for k in range(shards)], label="types", slim=lambda c: {"id": c["id"], "ops": [e["e"] for e in c["events"]]})
     ctx.notes["type_interner_behaviours"] = {"enumerated": len(a), "simulated": len(b), "replayed": len(cases)}
+    return cases
+
+
+def locals_oracle(ctx, prop):
+    """Locals.tla (allocation in any order, any locals as parameters, slot assignment at emission, names following their
+    locals): model checked; every behaviour up to the bound enumerated by TLC, built with FunctionBuilder on a real Module,
+    emitted, and judged by the relation the model's emission satisfies (Trace_Locals.tla)."""
+    q = ctx.quick()
+    cfg = write_cfg("MC_Locals_gen", open(os.path.join(SPEC, "MC_Locals.cfg")).read().replace("MaxLocals = 4", "MaxLocals = %d" % (3 if q else 4)))
+    model_check(ctx, "MC_Locals", cfg=cfg, workers=8, label="design-locals")
+    raw = os.path.join(ctx.work, "locals_hist.txt")
+    cfg = write_cfg("Enum_Locals_gen", open(os.path.join(SPEC, "Enum_Locals.cfg")).read().replace("MaxUses = 3", "MaxUses = %d" % (3 if q else 4)))
+    r = tlc("MC_Locals", cfg=cfg, workers=8, cont=False, capture=("CASE", raw), name="enum-locals")
+    ctx.add_mc(r, "enum-locals-behaviours")
+    trace = os.path.join(ctx.work, "locals.ndjson")
+    wv(["trace-locals", "histories=" + raw, "out=" + trace])
+    os.environ["PROPERTY"] = prop
+    r, cases = judge_trace(ctx, "Trace_Locals", trace, slim=lambda c: {"id": c["id"], "hist": c["hist"]})
+    ctx.notes["locals_behaviours_replayed"] = len(cases)
     return cases
 
 
